@@ -83,6 +83,9 @@ pub fn expected_hover(doc: &Doc, o: &Occ) -> Option<Vec<String>> {
         };
         if doc.gaps.contains(&first) {
             frags.push(format!("doc{}$", first));
+            if doc.layout == crate::gen::layout::Layout::Lines {
+                frags.push(format!("second{}$", first));
+            }
         }
     }
     Some(frags)
